@@ -18,6 +18,10 @@ CHECKS = {
          "Narrow claim. The quota per time window is NOT decided (clock, store, and run-time behaviour of GroupBy/WindowWhen/MergeAll). Decided: the structural reasons for per-key order, no duplication and propagation of terminals in the ulule limiter, the conversion of store errors into Error notifications, and that the native limiter's count/interval/key parameters reach Take/Interval/GroupBy.",
          "Trusted: ulule/limiter's Get/Reached semantics.",
          "DESIGN.md section 4, C20"),
+ "C16": ("static structural clauses only: RELEASE / TEARDOWN-ALL-RUN (every timer, ticker and looping goroutine is stopped or signalled by the teardown on every path), CTX-WATCH / CTX-DONE-TERMINATES (context-aware sources watch the subscriber context and the cancellation case ends the output), QUEUE-FIFO / CTX-PAIRING (queues filled at the tail, read at the dropped head, notification and context leave together), TERMINAL-PROPAGATION / DEAD-EMISSION / NO-EMIT-UNDER-TEARDOWN-LOCK",
+         "Narrow claim. Every clause that compares wall-clock instants or counts events per time window (never early, at most one per window or tick, Timeout's quiet period) is NOT decided: no sound static argument in reach bounds those, and the duration operand of the timer primitives admits no exact rule (any larger or scaled operand keeps the lower bounds). Decided are the clauses visible in the code's shape: operators fall silent after unsubscription or context cancellation (timers stopped, goroutines signalled, cancellation case terminates), queued notifications are not reordered (FIFO queue discipline of Delay and the buffering/combining operators) and keep their context, a completing source ends the output and nothing is emitted after the terminal.",
+         "Trusted: time.Timer/Ticker/AfterFunc semantics; C01 (a closed subscriber drops a late timer callback) and C03 (teardown runs once).",
+         "DESIGN.md sections 4 (C16) and 5"),
  "C04": ("static structural clauses only: ADAPTER (delegating variants are pure adapters), ALIAS (aliases forward every parameter once), PIPE (typed PipeN/PipeOpN apply operators in order), NO-POST-DELIVERY-MUTATION (an emitted slice/map is re-bound before being written again), DEAD-EMISSION (no notification after a certain terminal), TERMINAL-PROPAGATION (every path of a complete slot goes on), PARAM-USED (every observable/callback parameter is referenced), CONTEXTLESS-DELEGATES, STATE-LEVEL",
          "Narrow claim. What each operator computes on every input is NOT decidable statically and is not claimed. Decided are the clauses of the property that are visible in the code's shape: 67 delegating variants are observationally identical to their base form because their adapter literal calls the user function once with its own parameters and returns the right context; 24 aliases forward all parameters; 50 typed pipe functions apply operators in order (composition); no retained container is modified after delivery; no result is emitted after the terminal; a completing source always leads to a terminal or a further subscription; no input observable or user callback is ignored; the 29 context-less methods delegate; state is per subscription.",
          "Trusted: go/types. Base forms' values, boundaries and the reflective Pipe are out of reach.",
@@ -85,7 +89,6 @@ CHECKS = {
 }
 
 NOT_APPLICABLE = {
- "C16": "time-driven behaviour (never early, never reordered, at most one per window) compares wall-clock instants and counts events per time window; no sound static argument in reach bounds those, and the only structural candidates are not necessary conditions (see DESIGN.md section 5). The 'fall silent after unsubscription' clause is covered structurally by C03's RELEASE rule.",
 }
 
 PENDING = "check not built yet in this session; planned as described in DESIGN.md section 4 (static rules named there)"
